@@ -11,7 +11,8 @@ AllTrue == [uu \in URLS |-> TRUE]
 IncChain == [A |-> <<"B">>, B |-> <<"C">>, C |-> <<>>, D |-> <<>>]
 IncDiamond == [A |-> <<"B", "C">>, B |-> <<"D">>, C |-> <<"D">>, D |-> <<>>]
 G == IOEnv.GRAPH
-cInc == IF G \in {"chain", "missingleaf", "badleaf", "binaryleaf", "headeronly"} THEN IncChain ELSE IncDiamond
+cInc == IF G \in {"chain", "missingleaf", "badleaf", "binaryleaf", "headeronly", "flatchain"} THEN IncChain ELSE IncDiamond
+cFlat == G = "flatchain"
 cFetch == IF G \in {"missingleaf", "binaryleaf"} THEN [AllTrue EXCEPT !["C"] = FALSE] ELSE AllTrue
 cParse == IF G = "badleaf" THEN [AllTrue EXCEPT !["C"] = FALSE] ELSE AllTrue
 \* caller programs
@@ -29,6 +30,7 @@ cProg0 == CASE P = "dA_lA" -> << <<"deferred", "A">>, <<"load", "A">> >>
            [] P = "dA_rA_lA_lA" -> << <<"deferred", "A">>, <<"refresh", "A">>, <<"load", "A">>, <<"load", "A">> >>
            [] P = "lC_rC_lC_lC" -> << <<"load", "C">>, <<"refresh", "C">>, <<"load", "C">>, <<"load", "C">> >>
            [] P = "lA_tC_rA_lA" -> << <<"load", "A">>, <<"touch", "C">>, <<"refresh", "A">>, <<"load", "A">> >>
+           [] P = "lA_tC_rA_lA_lB_lC" -> << <<"load", "A">>, <<"touch", "C">>, <<"refresh", "A">>, <<"load", "A">>, <<"load", "B">>, <<"load", "C">> >>
            [] P = "dA_tB_rA_lA_lB" -> << <<"deferred", "A">>, <<"touch", "B">>, <<"refresh", "A">>, <<"load", "A">>, <<"load", "B">> >>
            [] P = "dB_rA_lB_lA" -> << <<"deferred", "B">>, <<"refresh", "A">>, <<"load", "B">>, <<"load", "A">> >>
            [] OTHER -> << <<"load", "C">>, <<"deferred", "A">>, <<"load", "C">> >>
